@@ -753,3 +753,97 @@ func reaches(from, to *ssa.BasicBlock) bool {
 	}
 	return false
 }
+
+// DI.COUNTER — a fixed-size array indexed by a counter that is stepped inside
+// a loop whose trip count depends on the input (one step per "vertex" line)
+// needs a dominating test that stops the counter at the array length; the
+// final "exactly three vertices" check after the loop comes too late for the
+// fourth store.
+func (s *decScope) ruleDICounter(rule string) {
+	c := s.c
+	for _, fn := range s.fns {
+		if s.guarded[fn] || fn.Blocks == nil {
+			continue
+		}
+		loops := naturalLoops(fn)
+		n := 0
+		for _, b := range fn.Blocks {
+			for _, ins := range b.Instrs {
+				ia, ok := ins.(*ssa.IndexAddr)
+				if !ok {
+					continue
+				}
+				pt, ok := ia.X.Type().Underlying().(*types.Pointer)
+				if !ok {
+					continue
+				}
+				arr, ok := pt.Elem().Underlying().(*types.Array)
+				if !ok {
+					continue
+				}
+				phi, ok := ia.Index.(*ssa.Phi)
+				if !ok {
+					continue
+				}
+				body, isHead := loops[phi.Block()]
+				if !isHead || !body[b] {
+					continue
+				}
+				// stepped by +1 on some back edge, constant start
+				stepped := false
+				for i, e := range phi.Edges {
+					if !body[phi.Block().Preds[i]] {
+						continue
+					}
+					if bo, ok := e.(*ssa.BinOp); ok && bo.Op == token.ADD {
+						if k, isC := constInt(bo.Y); isC && k > 0 {
+							stepped = true
+						}
+					}
+					if inner, ok := e.(*ssa.Phi); ok {
+						for _, e2 := range inner.Edges {
+							if bo, ok := e2.(*ssa.BinOp); ok && bo.Op == token.ADD && bo.X == ssa.Value(phi) {
+								stepped = true
+							}
+						}
+					}
+				}
+				if !stepped {
+					continue
+				}
+				// is the loop counted by this very phi with a bound <= len? then the
+				// header test bounds it
+				L := arr.Len()
+				bounded := false
+				for _, f := range factsAt(b) {
+					be, ok := f.cond.(*ssa.BinOp)
+					if !ok || be.X != ssa.Value(phi) {
+						continue
+					}
+					k, isC := constInt(be.Y)
+					if !isC || k > L {
+						continue
+					}
+					switch {
+					case be.Op == token.EQL && !f.taken && k == L,
+						be.Op == token.NEQ && f.taken && k == L,
+						be.Op == token.LSS && f.taken,
+						be.Op == token.GEQ && !f.taken:
+						bounded = true
+					case be.Op == token.LEQ && f.taken && k < L,
+						be.Op == token.GTR && !f.taken && k < L:
+						bounded = true
+					}
+				}
+				n++
+				c.analysed(qname(fn))
+				key := fmt.Sprintf("%s counter-index#%d into [%d]%s", qname(fn), n, L, arr.Elem().String())
+				if bounded {
+					c.ok(rule, key, ia.Pos(), "a dominating test stops the counter at the array length")
+				} else {
+					c.bad(rule, key, ia.Pos(), fmt.Sprintf("the array of length %d is indexed by a counter stepped once per input item without a dominating test against %d: one item too many panics with index out of range", L, L))
+				}
+			}
+		}
+	}
+}
